@@ -110,7 +110,7 @@ class CaseTimeout(BaseException):
     """One case did not finish within the per-case time limit (BaseException: not swallowed by `except Exception`)."""
 
 
-CASE_LIMIT = {"quick": 30, "thorough": 120}
+CASE_LIMIT = {"quick": 120, "thorough": 300}     # seconds per case (a case normally takes milliseconds); 3 timeouts end a shard
 
 
 def _alarm_handler(signum, frame):
@@ -179,6 +179,8 @@ def run_hypothesis_shard(mod, tier, seed, shard, nshards, examples, known_bucket
                         res["notes"]["timeout_case"] = "?"
                 if hasattr(mod, "after_timeout"):
                     mod.after_timeout()
+                if res["discards"][key] >= 3:
+                    raise _Stop()
                 return
             except HarnessError:
                 raise
@@ -237,6 +239,8 @@ def run_hypothesis_shard(mod, tier, seed, shard, nshards, examples, known_bucket
             test()
             remaining = 0
         except (Found, _Stop):
+            if state["last_fail"] is None:
+                break           # stopped after repeated per-case timeouts
             case, new, out = state["last_fail"]
             for v in new:
                 if v.refine is not None:
